@@ -240,6 +240,23 @@ theorem C10_get_int_hex (dflt : Int) (d : Nat) (ds rest : List Nat) (hd : ∀ c 
   simp only [Lx.getInt, Lx.stripMinus, Lx.getIntBody, List.cons_append, Lx.peek, List.headD_cons, hhex]
   simp
 
+/-- where no number stands (not a digit, `$` or `-`), `get_int` returns the default it was given and consumes nothing: an omitted
+    argument is the command's default, not 0 -/
+theorem C10_get_int_absent (dflt : Int) (s : List Nat) (h1 : Lx.isDigit (Lx.peek s) = false) (h2 : Lx.peek s ≠ 36) (h3 : Lx.peek s ≠ 45) :
+    Lx.getInt dflt s = (dflt, s) := by
+  cases s with
+  | nil => simp [Lx.getInt, Lx.stripMinus, Lx.getIntBody, Lx.startsWith, Lx.peek]
+  | cons c r =>
+    simp only [Lx.peek, List.headD_cons] at h1 h2 h3
+    have hs : Lx.stripMinus (c :: r) = (1, c :: r) := by
+      unfold Lx.stripMinus
+      split
+      · rename_i r' h; simp at h; exact absurd h.1 h3
+      · rfl
+    have h48 : c ≠ 48 := by intro h; subst h; simp [Lx.isDigit] at h1
+    have h48' : ¬ (48 = c) := fun h => h48 h.symm
+    simp [Lx.getInt, hs, Lx.getIntBody, Lx.startsWith, Lx.peek, h1, h2, h48']
+
 example : Lx.getInt 7 ([49, 50] ++ [41]) = (12, [41]) ∧ Lx.getInt 7 (45 :: [49, 50] ++ [41]) = (-12, [41]) ∧ Lx.getInt 7 [41] = (7, [41]) := by decide +kernel
 
 -- `$100000000` is 2^32, `9223372036854775808` is 2^63 (the readers themselves do not wrap: the 64-bit domain is the tie's)
